@@ -757,6 +757,10 @@ func DelClient(c Client) {
 	delete(g.clients, c.Id())
 	g.timestamp = time.Now()
 	clients := g.getClientsUnlocked(nil)
+	// this must be done with the lock held, so that nobody joins
+	// between the departure of the last operator and the group
+	// getting locked
+	autoLockKick(g)
 	g.mu.Unlock()
 
 	c.Joined(g.Name(), "leave")
@@ -765,7 +769,6 @@ func DelClient(c Client) {
 			g.Name(), "delete", c.Id(), c.Username(), nil, nil,
 		)
 	}
-	autoLockKick(g)
 }
 
 func (g *Group) GetClients(except Client) []Client {
